@@ -113,7 +113,7 @@ def _same(ga, gb):
     for x, y in zip(ga, gb):
         if (x is None) != (y is None):
             return False
-        if x is not None and (x.shape != y.shape or (x.size and float(np.abs(x - y).max()) > 1e-12 * max(1.0, float(np.abs(y).max())))):
+        if x is not None and (x.shape != y.shape or (x.size and not (float(np.abs(x - y).max()) <= 1e-12 * max(1.0, float(np.abs(y).max()))))):
             return False
     return True
 
